@@ -203,7 +203,7 @@ def _check(prop, tier, seed, replay, work, t0):
             shutil.copyfileobj(open(os.path.join(work, "bm%d.ndjson" % i)), w)
     bviol, btr = vlib.tlc_trace([os.path.join(SPEC, "trace", "TraceBisync.tla")], "TraceBisync", btrace, work, timeout=6000)
     rename = {"C14_UnitNeverCommitted": "C19_UnitLostUnderHandOver", "C14_SyncModeRepeatedUnit": "C19_UnitExecutedTwice", "C14_UnitSplit": "C19_UnitSplit",
-              "C18_RoutableUnitRefused": "C19_HandOverEndsReplay"}
+              "C14_RestartFails": "C19_RestartFailsAfterHandOver"}
     if bviol:
         blines = open(btrace).read().splitlines()
         bseen = set()
